@@ -295,3 +295,11 @@ V("twin: support of the moved polygon rebuilt in a hook from the moved vertices"
   "        result = super().__apply__(transformation)\n        if result.dim > 2:\n            result._plane = join(*result.vertices[: result.dim])\n        return result",
   "        result = super().__apply__(transformation)\n        self._move_support(result, transformation)\n        return result\n\n    def _move_support(self, moved: PolygonTensor, transformation: TransformationTensor) -> None:\n        if moved.dim > 2:\n            moved._plane = join(*moved.vertices[: moved.dim])",
   "silent")
+V("handler rebinds the segment to its supporting line before the membership filter", "C18", SHAPES,
+  "                if isinstance(other, SegmentCollection):\n                    other = cast(SegmentTensor, other[~e.dependent_values])\n                result = cast(PlaneTensor, self._plane[~e.dependent_values]).meet(other._line)\n                return list(\n                    result[\n                        PolygonCollection.from_tensor(self[~e.dependent_values]).contains(result)\n                        & other.contains(result)\n                    ]\n                )",
+  "                if isinstance(other, SegmentCollection):\n                    other = cast(SegmentTensor, other[~e.dependent_values])\n                other = other._line\n                result = cast(PlaneTensor, self._plane[~e.dependent_values]).meet(other)\n                keep = PolygonCollection.from_tensor(self[~e.dependent_values]).contains(result)\n                if isinstance(other, SegmentTensor):\n                    keep = keep & other.contains(result)\n                return list(result[keep])",
+  "E10.F1", "PolygonTensor.intersect")
+V("twin: mask alias and incremental filter in the handler", "C18", SHAPES,
+  "                if isinstance(other, SegmentCollection):\n                    other = cast(SegmentTensor, other[~e.dependent_values])\n                result = cast(PlaneTensor, self._plane[~e.dependent_values]).meet(other._line)\n                return list(\n                    result[\n                        PolygonCollection.from_tensor(self[~e.dependent_values]).contains(result)\n                        & other.contains(result)\n                    ]\n                )",
+  "                independent = ~e.dependent_values\n                if isinstance(other, SegmentCollection):\n                    other = cast(SegmentTensor, other[independent])\n                plane = cast(PlaneTensor, self._plane[independent])\n                result = plane.meet(other._line)\n                keep = PolygonCollection.from_tensor(self[independent]).contains(result)\n                keep = keep & other.contains(result)\n                return list(result[keep])",
+  "silent")
